@@ -96,8 +96,13 @@ def gen_plan(rng, index, tier, opts=None):
             edges.append([a, b])
         rng.shuffle(edges)
         H, W = (rng.randint(40, 56), rng.randint(40, 56)) if tiny else (rng.randint(72, 176), rng.randint(72, 176))
+        mixed = (not tiny) and rng.random() < 0.25  # a labels file whose two videos have different frame sizes
+        sizes = [[H, W], [rng.randint(72, 176), rng.randint(72, 176)] if mixed else [H, W]]
         r = 0.0 if tiny else rng.random()
-        if r < 0.5:
+        if mixed:
+            mh = mw = None
+            mh, mw = rng.choice([max(sizes[0][0], sizes[1][0]), rng.randint(72, 200)]), rng.choice([max(sizes[0][1], sizes[1][1]), rng.randint(72, 200)])
+        elif r < 0.5:
             mh = mw = None
         elif r < 0.75:
             mh, mw = H + rng.randint(0, 40), W + rng.randint(0, 40)
@@ -110,26 +115,33 @@ def gen_plan(rng, index, tier, opts=None):
         scale = rng.choice([0.5, 0.75, 1.0, 1.0, 1.25])
         if tiny:
             ms, ps, cs, scale = 8, 8, rng.choice([1, 2]), 1.0
-        g = scale * e
         sigma_cm = 1.5
         # worst perpendicular offset of a sampled PAF cell from the true edge: peak quantisation (cs/sqrt2) + nearest-cell lookup (ps/sqrt2);
         # weight exp(-d^4/2sigma^2) >= 0.9 there  <=>  sigma >= 2.24 d^2 = 1.12 (cs+ps)^2
         paf_sigma = max(3.0, 1.15 * (cs + ps) ** 2)
-        margin_g = 4.0 * cs + 3.0
-        Wg, Hg = W * g, H * g
-        if Wg < 2 * margin_g + 20 or Hg < 2 * margin_g + 20:
-            continue
-        node_min = max(5.0, 1.5 * ps, 2.0 * cs)
-        ext_g = min(0.09 * max(Hg, Wg), 4.0 * node_min)  # half extent of a body, given px -> edges < 0.2*max dim
-        if tiny:
-            node_min, ext_g, margin_g = 14.0, 0.33 * min(Hg, Wg), 3.0 * cs + 2.0  # edges longer than 0.25 * grid side * stride
-        if ext_g < node_min and not tiny:
-            continue
         peak_sep = 5.0 * sigma_cm * cs + 2.0
-        n_frames = rng.randint(1, 3)
+        n_frames = rng.randint(2, 4) if mixed else rng.randint(1, 3)
         frames = []
         ok = True
+        fidxs = list(range(8))
+        rng.shuffle(fidxs)
         for k in range(n_frames):
+            vid = (k if k < 2 else rng.randrange(2)) if mixed else 0
+            fH, fW = sizes[vid]
+            e = eff_scale(fH, fW, mh, mw)[0]
+            g = scale * e  # content scale of THIS frame (size matching differs per frame size)
+            margin_g = 4.0 * cs + 3.0
+            Wg, Hg = fW * g, fH * g
+            if Wg < 2 * margin_g + 20 or Hg < 2 * margin_g + 20:
+                ok = False
+                break
+            node_min = max(5.0, 1.5 * ps, 2.0 * cs)
+            ext_g = min(0.09 * max(Hg, Wg), 4.0 * node_min)  # half extent of a body, given px -> edges < 0.2*max dim
+            if tiny:
+                node_min, ext_g, margin_g = 14.0, 0.33 * min(Hg, Wg), 3.0 * cs + 2.0  # edges longer than 0.25 * grid side * stride
+            if ext_g < node_min and not tiny:
+                ok = False
+                break
             animals_g = []
             for a in range(1 if tiny else rng.randint(1, 5)):
                 for _t in range(40):
@@ -163,18 +175,27 @@ def gen_plan(rng, index, tier, opts=None):
             if not animals_g:
                 ok = False
                 break
-            frames.append({"k": k, "animals": [(a / g).tolist() for a in animals_g]})
+            fr = {"k": k, "animals": [(a / g).tolist() for a in animals_g]}
+            if mixed:
+                fr["vid"], fr["fidx"] = vid, fidxs[k]
+            frames.append(fr)
         if not ok:
             continue
-        return {"kind": "bottomup", "H": H, "W": W, "max_hw": [mh, mw], "n_nodes": n_nodes, "edges": edges, "refinement": rng.choice([None, "integral"]),
-                "batch": rng.choice([1, 2, 3]), "dtype": rng.choice(["uint8", "float32"]), "sigma": sigma_cm, "cap": rng.choice([1, 2, 4]),
+        plan = {"kind": "bottomup", "H": H, "W": W, "max_hw": [mh, mw], "n_nodes": n_nodes, "edges": edges, "refinement": rng.choice([None, "integral"]),
+                "batch": rng.choice([2, 3]) if mixed else rng.choice([1, 2, 3]), "dtype": rng.choice(["uint8", "float32"]), "sigma": sigma_cm, "cap": rng.choice([1, 2, 4]),
                 "bottomup": {"scale": scale, "max_stride": ms, "stride": cs, "paf_stride": ps, "paf_sigma": paf_sigma}, "frames": frames}
+        if mixed:
+            plan["sizes"] = sizes
+        return plan
     raise RuntimeError("could not generate a C03 plan")
 
 
 def describe(plan):
     d = {k: plan[k] for k in ("H", "W", "max_hw", "n_nodes", "edges", "refinement", "batch", "dtype", "bottomup")}
     d["animals"] = [["".join("N" if (p[0] != p[0]) else "x" for p in a) for a in f["animals"]] for f in plan["frames"]]
+    if "sizes" in plan:
+        d["sizes"] = plan["sizes"]
+        d["frame_vid"] = [f.get("vid") for f in plan["frames"]]
     return d
 
 
@@ -191,8 +212,9 @@ def shrink(plan):
                 p = copy.deepcopy(plan)
                 del p["frames"][i]["animals"][j]
                 yield p
+    mixed = "sizes" in plan and len({tuple(x) for x in plan["sizes"]}) > 1
     for k, v in (("batch", 1), ("refinement", None), ("dtype", "uint8"), ("max_hw", [None, None])):
-        if plan[k] != v:
+        if plan[k] != v and not (mixed and k == "max_hw"):
             p = copy.deepcopy(plan)
             p[k] = v
             yield p
@@ -232,22 +254,26 @@ def components(pts, edges):
 def execute(plan, choices=None):
     violations = []
     probes = {"instances_expected": 0, "keypoints_compared": 0, "multi_animal_frames": 0, "split_animals": 0, "isolated_keypoints": 0,
-              "missing_node_animals": 0, "worst_err_over_tol_x1000_max": 0, "stride_pair_differs": 0, "degenerate_tie_scene_skipped": 0}
+              "missing_node_animals": 0, "worst_err_over_tol_x1000_max": 0, "stride_pair_differs": 0, "degenerate_tie_scene_skipped": 0, "mixed_frame_sizes": 0}
 
     def V(kind, where, detail):
         violations.append({"kind": kind, "sig": f"{kind}:{where}", "detail": detail})
 
     b = plan["bottomup"]
-    e, IH, IW, r1 = eff_scale(plan["H"], plan["W"], plan["max_hw"][0], plan["max_hw"][1])
     s = b["scale"]
-    r2 = max(IH * s - int(IH * s), IW * s - int(IW * s)) if s != 1.0 else 0.0
-    rho = r1 * s + r2
-    sig = e * s
-    tol = _tol(b["stride"], sig, rho)
+    mixed = "sizes" in plan and len({tuple(x) for x in plan["sizes"]}) > 1
+    provider = "labels" if mixed else "video"
+
+    def geom(f):
+        fH, fW = pw.frame_hw(plan, f)
+        e, IH, IW, r1 = eff_scale(fH, fW, plan["max_hw"][0], plan["max_hw"][1])
+        r2 = max(IH * s - int(IH * s), IW * s - int(IW * s)) if s != 1.0 else 0.0
+        return e, _tol(b["stride"], e * s, r1 * s + r2)
+
     digest = ""
     nets = {"bottomup": type("N", (), {"min_tie": float("inf")})()}
     try:
-        records, end, err, sim, nets = pw.run_predictor(plan, "video", choices)
+        records, end, err, sim, nets = pw.run_predictor(plan, provider, choices)
         digest = sim.digest()
         if sim.failure:
             V(sim.failure["kind"], "bottomup", sim.failure["detail"])
@@ -262,14 +288,17 @@ def execute(plan, choices=None):
         got = {}
         for r in records:
             fidx = np.asarray(r["frame_idx"]).reshape(-1)
+            vidx = np.asarray(r["video_idx"]).reshape(-1)
             for bi in range(len(fidx)):
-                got[int(fidx[bi])] = (np.asarray(r["pred_instance_peaks"][bi], dtype=np.float64).reshape(-1, plan["n_nodes"], 2),
+                got[(int(vidx[bi]), int(fidx[bi]))] = (np.asarray(r["pred_instance_peaks"][bi], dtype=np.float64).reshape(-1, plan["n_nodes"], 2),
                                       np.asarray(r["pred_peak_values"][bi], dtype=np.float64).reshape(-1, plan["n_nodes"]))
         for fi, f in enumerate(plan["frames"]):
-            if fi not in got:
-                V("frame_missing", "bottomup", f"no record for frame {fi}")
+            key = (f["vid"], f["fidx"]) if (mixed and "vid" in f) else (0, fi)
+            if key not in got:
+                V("frame_missing", "bottomup", f"no record for frame {fi} {key}")
                 break
-            P, Vv = got[fi]
+            P, Vv = got[key]
+            e, tol = geom(f)
             expected = []
             for a in f["animals"]:
                 comps = components(a, plan["edges"])
@@ -324,6 +353,8 @@ def execute(plan, choices=None):
         probes["degenerate_tie_scene_skipped"] = 1
     if b["stride"] != b["paf_stride"]:
         probes["stride_pair_differs"] = 1
+    if mixed:
+        probes["mixed_frame_sizes"] = 1
     return {
         "violations": violations,
         "digest": hashlib.blake2b(repr((digest, [v["sig"] for v in violations], probes["keypoints_compared"])).encode(), digest_size=16).hexdigest(),
